@@ -304,6 +304,8 @@ func (r *Reader) readFiles(roots []string, opts walkerOpts, ignores []string) bo
 		if path != "." {
 			isDir := de.IsDir()
 			if isDir || opts.follow && isSymlinkToDir(path, de) {
+				// A symbolic link to a directory that we follow is a directory
+				isDir = true
 				base := filepath.Base(path)
 				if !opts.hidden && base[0] == '.' && base != ".." {
 					return filepath.SkipDir
